@@ -13,6 +13,7 @@ from ..corpus import (
     arg_or_kw,
     calls_in,
     dotted,
+    enclosing_function,
     is_const,
     kwarg,
     parent,
@@ -45,7 +46,10 @@ META = {
         "callees) is dominated by the file_insertion_enabled test whose failing branch raises DirectiveError at warning "
         "level; every other file-system read in the package is unreachable from run_directive (search stopped where "
         "markdown text re-enters the renderer; the inventory loader, fed from global-only configuration, is listed). R4: the nested rST parse of eval-rst runs on a document whose "
-        "settings object is the outer document's; every mock handed to directives/roles exposes the renderer's real document."
+        "settings object is the outer document's (or a copy / a complete fill of it; a setdefault merge is not); every mock handed to "
+        "directives/roles exposes the renderer's real document. R1 also requires that the filter's test is a truth test (an identity "
+        "test `is False` lets the legal value 0 through) and that nodes are not removed while docutils' lazy findall() generator walks "
+        "the tree. R5: no store, setattr, override-dict entry or keyword argument in the package gives either switch a value other than False."
     ),
     "not_decided": (
         "that third-party directives/roles honour the settings they are shown (docutils' raw/include/csv-table and Sphinx's "
@@ -146,9 +150,93 @@ def _mentions_setting(e: ast.expr, name: str, fi: FunctionInfo) -> bool:
     return False
 
 
-def _is_raw_ctor(call: ast.Call, fi: FunctionInfo) -> bool:
+def _raw_names(corpus: Corpus) -> set[str]:
+    """Fully dotted names that denote docutils.nodes.raw: the class itself, module-level aliases
+    (``Raw = nodes.raw``) and package classes derived from it."""
+
+    def compute():
+        names = {RAW_CLASS}
+        changed = True
+        while changed:
+            changed = False
+            for m in corpus.modules.values():
+                for nm, val in m.const_nodes.items():
+                    d = dotted(val)
+                    if d and m.resolve(d) in names and f"{m.name}.{nm}" not in names:
+                        names.add(f"{m.name}.{nm}")
+                        changed = True
+            for ci in corpus.all_classes():
+                full = f"{ci.module.name}.{ci.name}"
+                if full not in names and any(b in names for b in ci.bases):
+                    names.add(full)
+                    changed = True
+        return names
+
+    return corpus.cache("c20-raw-names", compute)
+
+
+def _is_raw_ctor(call: ast.Call, fi: FunctionInfo, corpus: Corpus | None = None) -> bool:
     d = dotted(call.func)
-    return bool(d) and fi.module.resolve(d) == RAW_CLASS
+    if not d:
+        return False
+    full = fi.module.resolve(d)
+    if full == RAW_CLASS:
+        return True
+    if corpus is not None:
+        names = _raw_names(corpus)
+        if full in names:
+            return True
+        ci = corpus.find_class(full)
+        if ci is not None and f"{ci.module.name}.{ci.name}" in names:
+            return True
+        # local alias: R = nodes.raw
+        if isinstance(call.func, ast.Name):
+            v = _deref(call.func, fi)
+            dv = dotted(v) if v is not call.func else None
+            if dv and fi.module.resolve(dv) in names:
+                return True
+    return False
+
+
+def _norm_atom(e: ast.expr, pol: bool, identity: bool = False) -> tuple[ast.expr, bool]:
+    """`X == False`, `X != True`, ... -> (X, polarity): for the values the switches take (bools and the
+    ints 1/0 that docutils uses as defaults) an equality comparison with a bool literal is the truth test.
+    Identity comparisons (`X is False`) are *not* equivalent - 0 is a legal 'off' value - and are only
+    normalised on request (``identity=True``), for callers that report them."""
+    if isinstance(e, ast.Compare) and len(e.ops) == 1 and isinstance(e.comparators[0], ast.Constant) and isinstance(e.comparators[0].value, bool):
+        c = e.comparators[0].value
+        op = e.ops[0]
+        if isinstance(op, ast.Eq) or (identity and isinstance(op, ast.Is)):
+            return e.left, (pol if c else not pol)
+        if isinstance(op, ast.NotEq) or (identity and isinstance(op, ast.IsNot)):
+            return e.left, ((not pol) if c else pol)
+    return e, pol
+
+
+def _identity_tests(test: ast.expr, name: str, fi: FunctionInfo) -> list[ast.Compare]:
+    """`<switch> is False` / `<switch> is not False` atoms: they let the int 0 through as 'enabled'."""
+    out = []
+    for atom in _leaves(test):
+        if isinstance(atom, ast.Compare) and len(atom.ops) == 1 and isinstance(atom.ops[0], (ast.Is, ast.IsNot)) and isinstance(atom.comparators[0], ast.Constant) and atom.comparators[0].value is False:
+            if _setting_root(atom.left, name, fi) is not None:
+                out.append(atom)
+    return out
+
+
+def _facts(test: ast.expr, pol: bool, identity: bool = False) -> list[tuple[ast.expr, bool]]:
+    return [_norm_atom(e, p, identity) for e, p in facts(test, pol)]
+
+
+def _guard_facts(cfg, st) -> list[tuple[ast.expr, bool]]:
+    return [_norm_atom(e, p) for e, p in cfg.guards(st)]
+
+
+def _leaves(test: ast.expr) -> list[ast.expr]:
+    if isinstance(test, ast.UnaryOp) and isinstance(test.op, ast.Not):
+        return _leaves(test.operand)
+    if isinstance(test, ast.BoolOp):
+        return [x for v in test.values for x in _leaves(v)]
+    return [test]
 
 
 def _is_raw_class(e: ast.expr | None, fi: FunctionInfo) -> bool:
@@ -228,13 +316,16 @@ class Filter:
         self.problems: list[tuple[str, str, ast.AST]] = []  # (aspect, message, node)
         self.oks: list[tuple[str, str, ast.AST]] = []
         self.loop: ast.For | None = None
+        self.lazy = False
+        self.notes: list[tuple[str, ast.AST]] = []
         self._analyse()
 
     # aspects: test, coverage, every-node, reported
     def _analyse(self) -> None:
         fi, ifn = self.fi, self.ifnode
         cfg = get_cfg(fi)
-        atoms = facts(ifn.test, True)
+        atoms = _facts(ifn.test, True, identity=True)
+        ident = _identity_tests(ifn.test, "raw_enabled", fi)
         setting = [(e, pol) for e, pol in atoms if _setting_root(e, "raw_enabled", fi) is not None]
         rest = [(e, pol) for e, pol in atoms if _setting_root(e, "raw_enabled", fi) is None]
         if len(setting) != 1:
@@ -249,7 +340,9 @@ class Filter:
             branch, edge = ifn.orelse, ("F", ifn)
         else:
             branch, edge = ifn.body, ("T", ifn)
-        if rest:
+        if ident:
+            self.problems.append(("test", f"`{short(ident[0], 60)}` is an identity test: raw_enabled = 0 (a legal 'off' value; docutils' own defaults for the switches are the ints 1/0) is not `False`, so the filter is skipped and every raw node survives", ident[0]))
+        elif rest:
             self.problems.append(("test", "the raw filter is additionally conditioned on " + " and ".join(("" if p else "not ") + short(x, 50) for x, p in rest) + ": with raw disabled and that condition false every raw node survives", ifn))
         else:
             self.oks.append(("test", f"taken exactly when {self.root}.settings.raw_enabled is false", ifn))
@@ -272,8 +365,9 @@ class Filter:
             raise Unsupported(f"{fi.module.site(ifn)}: no loop over nodes.raw found under the raw_enabled test (rewritten in an unknown idiom)")
         if len(cands) > 1:
             raise Unsupported(f"{fi.module.site(ifn)}: several loops over nodes.raw under the raw_enabled test")
-        lp, (recv, call) = cands[0]
+        lp, (recv, call, lazy) = cands[0]
         self.loop = lp
+        self.lazy = lazy
         if not cfg.postdominates(lp, edge):
             raise Unsupported(f"{fi.module.site(lp)}: the raw loop is not reached on every path of the raw-disabled branch")
         cov_problem = None
@@ -295,11 +389,19 @@ class Filter:
         self._loop_body(lp, cfg)
 
     def _raw_iter(self, lp: ast.For):
-        """(receiver, traversal call) when the loop iterates over all nodes.raw of a receiver."""
+        """(receiver, traversal call, lazy) when the loop iterates over all nodes.raw of a receiver.
+        ``lazy``: the loop consumes docutils' findall() generator directly (not materialised by list()/tuple()/sorted();
+        ``traverse()`` returns a list in every supported docutils)."""
         fi = self.fi
         it = _deref(lp.iter, fi)
-        while isinstance(it, ast.Call) and dotted(it.func) in ("list", "tuple", "reversed") and len(it.args) == 1:
+        materialised = False
+        while isinstance(it, ast.Call) and dotted(it.func) in ("list", "tuple", "reversed", "sorted", "set") and len(it.args) >= 1:
+            if dotted(it.func) != "reversed":
+                materialised = True
             it = _deref(it.args[0], fi)
+        if isinstance(it, (ast.ListComp, ast.SetComp)) and len(it.generators) == 1 and not it.generators[0].ifs and isinstance(it.elt, ast.Name) and unparse(it.elt) == unparse(it.generators[0].target):
+            materialised = True
+            it = _deref(it.generators[0].iter, fi)
         if not isinstance(it, ast.Call):
             return None
         cls = arg_or_kw(it, 0, "condition")
@@ -307,9 +409,9 @@ class Filter:
             return None
         f = it.func
         if isinstance(f, ast.Attribute) and f.attr in ("traverse", "findall"):
-            return _deref(f.value, fi), it
+            return _deref(f.value, fi), it, (f.attr == "findall" and not materialised)
         if isinstance(f, ast.Call) and (dotted(f.func) or "").split(".")[-1] == "findall" and len(f.args) == 1:
-            return _deref(f.args[0], fi), it  # _compat.findall(node)(cls)
+            return _deref(f.args[0], fi), it, not materialised  # _compat.findall(node)(cls)
         return None
 
     def _loop_body(self, lp: ast.For, cfg) -> None:
@@ -320,59 +422,72 @@ class Filter:
         for n in walk_local(lp):
             if isinstance(n, (ast.Break, ast.Return)):
                 raise Unsupported(f"{fi.module.site(n)}: break/return inside the raw filter loop")
-        repl = None  # (call, kind, replacement expr | None)
+        muts = []  # (call, kind, replacement expr | None)
         for c in calls_in(lp, into_lambdas=False):
             f = c.func
             if not isinstance(f, ast.Attribute):
                 continue
             recv = unparse(f.value)
             if f.attr == "replace" and recv == f"{v}.parent" and len(c.args) == 2 and unparse(c.args[0]) == v:
-                repl = (c, "replace", c.args[1])
+                muts.append((c, "replace", c.args[1]))
             elif f.attr == "replace_self" and recv == v and len(c.args) == 1:
-                repl = (c, "replace", c.args[0])
-            elif f.attr == "remove" and recv == f"{v}.parent" and len(c.args) == 1 and unparse(c.args[0]) == v:
-                repl = (c, "remove", None)
-        if repl is None:
+                muts.append((c, "replace", c.args[0]))
+            elif f.attr == "remove" and recv in (f"{v}.parent", f"{v}.parent.children") and len(c.args) == 1 and unparse(c.args[0]) == v:
+                muts.append((c, "remove", None))
+        if not muts:
             raise Unsupported(f"{fi.module.site(lp)}: the raw filter loop neither replaces nor removes `{v}` in a recognised form")
-        call, kind, new = repl
-        st = cfg.stmt_of(call)
-        if cfg.paths_avoiding(("T", lp), lp, lambda n: n is st):
-            # some iteration skips the replacement: is the skip decided by the node's content?
+        stmts = {id(cfg.stmt_of(c)) for c, _, _ in muts}
+        if cfg.paths_avoiding(("T", lp), lp, lambda n: id(n) in stmts):
+            # some iteration leaves the node in place: is the skip decided by the node's content?
             content_tests = []
-            for t, _pol in cfg.guards(st):
-                if not (lp.lineno <= getattr(t, "lineno", 0) <= lp.end_lineno):
-                    continue
-                for x in ast.walk(t):
-                    if isinstance(x, ast.Name) and x.id == v:
-                        px = parent(x)
-                        if isinstance(px, (ast.Subscript, ast.Compare)) or (isinstance(px, ast.Attribute) and px.attr != "parent"):
-                            content_tests.append(t)
+            for n in walk_local(lp):
+                if isinstance(n, (ast.If, ast.IfExp)):
+                    for x in ast.walk(n.test):
+                        if isinstance(x, ast.Name) and x.id == v:
+                            px = parent(x)
+                            if isinstance(px, (ast.Subscript, ast.Compare)) or (isinstance(px, ast.Attribute) and px.attr != "parent"):
+                                content_tests.append(n.test)
             if content_tests:
-                self.problems.append(("every-node", f"only raw nodes with `{short(content_tests[0], 60)}` are replaced; the others survive with raw disabled", content_tests[0]))
+                self.problems.append(("every-node", f"raw nodes are only replaced depending on `{short(content_tests[0], 60)}`; the others survive with raw disabled", content_tests[0]))
             else:
-                raise Unsupported(f"{fi.module.site(call)}: the replacement of `{v}` is conditional in a way the rule does not understand")
+                raise Unsupported(f"{fi.module.site(muts[0][0])}: the replacement of `{v}` is conditional in a way the rule does not understand")
         else:
-            self.oks.append(("every-node", f"each raw node is {'replaced' if kind == 'replace' else 'removed'} on every iteration", call))
+            self.oks.append(("every-node", f"each raw node is replaced/removed on every iteration ({len(muts)} mutation site(s))", muts[0][0]))
+        # removal (or list-splicing) while docutils' lazy findall() generator is walking the parent's child list
+        removers = [c for c, kind, _ in muts if kind == "remove"]
+        if self.lazy and removers:
+            self.problems.append(("lazy-iteration", f"`{short(removers[0], 50)}` shrinks the parent's child list while the lazy findall() generator is iterating over it: the sibling that follows a removed node is never visited (a hard break is two adjacent raw nodes; inline HTML right after a hard break) and stays in the document", removers[0]))
+        elif self.lazy:
+            self.oks.append(("lazy-iteration", "lazy findall() traversal, but nodes are replaced one-for-one (child lists keep their length)", lp))
+        else:
+            self.oks.append(("lazy-iteration", "the raw nodes are collected into a list before the tree is modified", lp))
         # what replaces it
-        if kind == "remove":
-            self.problems.append(("reported", "raw nodes are removed silently: the refusal must be reported as a warning", call))
-            return
-        w = _deref(new, fi)
-        if isinstance(w, ast.Call) and isinstance(w.func, ast.Attribute) and unparse(w.func.value).endswith("reporter"):
-            level = w.func.attr
-            if level == "warning":
-                self.oks.append(("reported", f"replacement is {short(w, 60)}", w))
-            elif level in ("info", "debug", "error", "severe", "critical"):
-                self.problems.append(("reported", f"the refusal is reported with reporter.{level}, not as a warning" + (" (below the default report level: nothing is shown)" if level in ("info", "debug") else ""), w))
-            elif level == "system_message" and w.args and isinstance(w.args[0], ast.Constant):
-                if w.args[0].value == 2:
-                    self.oks.append(("reported", f"replacement is {short(w, 60)}", w))
+        any_replace = any(kind == "replace" for _, kind, _ in muts)
+        for call, kind, new in muts:
+            if kind == "remove":
+                if any_replace:
+                    self.notes.append((f"`{short(call, 50)}` drops some raw nodes without a message of their own (others are replaced by a warning)", call))
                 else:
-                    self.problems.append(("reported", f"the refusal is reported at level {w.args[0].value}, not as a warning (2)", w))
+                    self.problems.append(("reported", f"`{short(call, 50)}` removes raw nodes silently: the refusal must be reported as a warning", call))
+                continue
+            w = _deref(new, fi)
+            if isinstance(w, (ast.List, ast.Tuple)):
+                raise Unsupported(f"{fi.module.site(call)}: raw node replaced by a list of nodes")
+            if isinstance(w, ast.Call) and isinstance(w.func, ast.Attribute) and unparse(w.func.value).endswith("reporter"):
+                level = w.func.attr
+                if level == "warning":
+                    self.oks.append(("reported", f"replacement is {short(w, 60)}", w))
+                elif level in ("info", "debug", "error", "severe", "critical"):
+                    self.problems.append(("reported", f"the refusal is reported with reporter.{level}, not as a warning" + (" (below the default report level: nothing is shown)" if level in ("info", "debug") else ""), w))
+                elif level == "system_message" and w.args and isinstance(w.args[0], ast.Constant):
+                    if w.args[0].value == 2:
+                        self.oks.append(("reported", f"replacement is {short(w, 60)}", w))
+                    else:
+                        self.problems.append(("reported", f"the refusal is reported at level {w.args[0].value}, not as a warning (2)", w))
+                else:
+                    raise Unsupported(f"{fi.module.site(w)}: reporter call `{short(w, 50)}` not understood")
             else:
-                raise Unsupported(f"{fi.module.site(w)}: reporter call `{short(w, 50)}` not understood")
-        else:
-            raise Unsupported(f"{fi.module.site(call)}: the replacement `{short(new, 50)}` is not a reporter message")
+                raise Unsupported(f"{fi.module.site(call)}: the replacement `{short(new, 50)}` is not a reporter message")
 
 
 def _filters_in(fi: FunctionInfo) -> list[ast.If]:
@@ -480,6 +595,8 @@ def r1_filter_postdominates(corpus: Corpus, rep: Report, tier: str):
             rep.ok("C20.R1", f"{where.fq}|raw filter|{aspect}", where.module.site(node), msg)
         for aspect, msg, node in flt.problems:
             rep.violation("C20.R1", f"{where.fq}|raw filter|{aspect}", where.module.site(node), msg)
+        for msg, node in flt.notes:
+            rep.listed("C20.R1", f"{where.fq}|raw filter|note|{short(node, 40)}", where.module.site(node), msg)
     rep.expect_min("C20.R1", 2, "front-end entries (docutils and Sphinx parsers)")
 
 
@@ -533,6 +650,12 @@ def _transform_entries(corpus: Corpus) -> tuple[list[tuple[FunctionInfo, str]], 
                 ci = corpus.find_class(fi.module.resolve(dotted(c.args[0]) or ""))
                 if ci is not None:
                     add_class(ci, f"registered by {fi.qualname}", out)
+        # Sphinx event handlers run outside the parse: whatever they put into a doctree is never filtered
+        for c in _own_calls(fi):
+            if isinstance(c.func, ast.Attribute) and c.func.attr == "connect" and len(c.args) >= 2 and isinstance(c.args[0], ast.Constant):
+                h = corpus.find_function(fi.module.resolve(dotted(c.args[1]) or ""))
+                if h is not None:
+                    out.setdefault(h.fq, (h, f"handler of the Sphinx event {c.args[0].value!r} connected by {fi.qualname}"))
     for ci in corpus.all_classes():
         ext = corpus.external_bases(ci)
         if any(b.rsplit(".", 1)[-1].endswith(("Transform", "ReferencesResolver")) for b in ext):
@@ -548,7 +671,7 @@ def _raw_constructions(corpus: Corpus) -> list[tuple[FunctionInfo, ast.Call]]:
     out = []
     for fi in corpus.all_functions():
         for c in _own_calls(fi):
-            if _is_raw_ctor(c, fi):
+            if _is_raw_ctor(c, fi, corpus):
                 out.append((fi, c))
     # module / class level (not inside any function)
     return out
@@ -584,7 +707,7 @@ def r2_no_late_raw(corpus: Corpus, rep: Report, tier: str):
         own = [st] if not isinstance(st, (ast.If, ast.For, ast.While, ast.Try, ast.With)) else _headers(st)
         for part in own:
             for c in calls_in(part, into_lambdas=False):
-                if _is_raw_ctor(c, fi):
+                if _is_raw_ctor(c, fi, corpus):
                     rep.violation("C20.R2", f"{fi.fq}|constructs nodes.raw after the filter|{short(c, 60)}", fi.module.site(c), f"{fi.qualname} builds `{short(c, 60)}` after the raw filter has run: the node reaches the writer even with raw disabled")
                 for t in g.flat_targets(g.resolve_call(c, fi)):
                     late.append((t, f"called by {fi.qualname} after the filter"))
@@ -722,19 +845,11 @@ def _all_callers_guarded(corpus: Corpus, f: FunctionInfo, depth: int = 2) -> boo
 
 def _refusal_if(fi: FunctionInfo, ifn: ast.If) -> ast.expr | None:
     """The setting read when ``ifn`` is `if not <file_insertion_enabled>: ...raise`, else None."""
-    atoms = facts(ifn.test, True)
+    atoms = _facts(ifn.test, True)
     if len(atoms) == 1 and not atoms[0][1] and _setting_root(atoms[0][0], "file_insertion_enabled", fi) is not None:
         if ifn.body and isinstance(ifn.body[-1], ast.Raise):
             return atoms[0][0]
     return None
-
-
-def _leaves(test: ast.expr) -> list[ast.expr]:
-    if isinstance(test, ast.UnaryOp) and isinstance(test.op, ast.Not):
-        return _leaves(test.operand)
-    if isinstance(test, ast.BoolOp):
-        return [x for v in test.values for x in _leaves(v)]
-    return [test]
 
 
 def _check_guard_forms(fi: FunctionInfo) -> None:
@@ -743,6 +858,7 @@ def _check_guard_forms(fi: FunctionInfo) -> None:
     for n in fi.local_nodes():
         if isinstance(n, (ast.If, ast.While, ast.IfExp, ast.Assert)) and _mentions_setting(n.test, "file_insertion_enabled", fi):
             for atom in _leaves(n.test):
+                atom = _norm_atom(atom, True, identity=True)[0]
                 if _mentions_setting(atom, "file_insertion_enabled", fi) and _setting_root(atom, "file_insertion_enabled", fi) is None:
                     raise Unsupported(f"{fi.module.site(n)}: file_insertion_enabled test `{short(n.test, 60)}` is not a plain truth test of the setting")
 
@@ -751,7 +867,7 @@ def _insertion_guard_facts(corpus: Corpus, fi: FunctionInfo, st) -> list[str]:
     """Reasons why file insertion is known to be enabled whenever ``st`` executes: a dominating truth
     fact on the setting, or a dominating call of a helper that always raises when it is disabled."""
     cfg = get_cfg(fi)
-    out = [short(t, 60) for t, pol in cfg.guards(st) if pol and _setting_root(t, "file_insertion_enabled", fi) is not None]
+    out = [short(t, 60) for t, pol in _guard_facts(cfg, st) if pol and _setting_root(t, "file_insertion_enabled", fi) is not None]
     if out:
         return out
     g = get_callgraph(corpus)
@@ -770,9 +886,49 @@ def _insertion_guard_facts(corpus: Corpus, fi: FunctionInfo, st) -> list[str]:
     return out
 
 
+def _directive_entries(corpus: Corpus, rd: FunctionInfo) -> list[tuple[FunctionInfo, str]]:
+    """run_directive plus the run() of every package class that stands in for a directive: classes the
+    package registers (add_directive / add_role) and classes with a run() method instantiated in code
+    reachable from run_directive (directive mocks) - independent of the frozen call-graph edge."""
+    g = get_callgraph(corpus)
+    by_fq = {f.fq: f for f in corpus.all_functions()}
+    entries: dict[str, tuple[FunctionInfo, str]] = {rd.fq: (rd, "run_directive")}
+    for fi in corpus.all_functions():
+        if fi.is_lambda:
+            continue
+        for c in _own_calls(fi):
+            if isinstance(c.func, ast.Attribute) and c.func.attr in ("add_directive", "add_role") and len(c.args) >= 2:
+                a = c.args[1].func if isinstance(c.args[1], ast.Call) else c.args[1]
+                ci = corpus.find_class(fi.module.resolve(dotted(a) or ""))
+                m = corpus.lookup_method(ci, "run") if ci is not None else None
+                if m is not None:
+                    entries.setdefault(m.fq, (m, f"registered by {fi.qualname} ({c.func.attr})"))
+    for _ in range(5):
+        reach = g.reachable([e for e, _ in entries.values()], stop=lambda f: f.name == "nested_render_text")
+        grew = False
+        for fq in list(reach):
+            f = by_fq.get(fq)
+            if f is None:
+                continue
+            for c in _own_calls(f):
+                d = dotted(c.func)
+                ci = corpus.find_class(f.module.resolve(d)) if d else None
+                m = ci.methods.get("run") if ci is not None else None
+                if m is not None and m.fq not in entries:
+                    entries[m.fq] = (m, f"class {ci.name} has a run() method and is instantiated in {f.qualname}")
+                    grew = True
+        if not grew:
+            break
+    return list(entries.values())
+
+
 def _judge_refusal(rep: Report, fi: FunctionInfo, ifn: ast.If) -> bool:
     """Judge one `if not <file_insertion_enabled>:` refusal; True when it is a warning-level refusal."""
-    atoms = facts(ifn.test, True)
+    ident = _identity_tests(ifn.test, "file_insertion_enabled", fi)
+    if ident:
+        rep.violation("C20.R3", f"{fi.fq}|refusal when file insertion is disabled", fi.module.site(ident[0]), f"`{short(ident[0], 60)}` is an identity test: file_insertion_enabled = 0 (a legal 'off' value; docutils' own defaults for the switches are the ints 1/0) is not `False`, so the directive goes on to read the file")
+        return False
+    atoms = _facts(ifn.test, True)
     if len(atoms) != 1 or _setting_root(atoms[0][0], "file_insertion_enabled", fi) is None or atoms[0][1]:
         return False  # a weaker/other test establishes nothing: the reads below are then judged unguarded
     root = unparse(_setting_root(atoms[0][0], "file_insertion_enabled", fi))
@@ -879,7 +1035,10 @@ def r3_file_read_dominance(corpus: Corpus, rep: Report, tier: str):
         rep.error("C20.R3", "a file_insertion_enabled test exists in MockIncludeDirective.run but none has the recognised refusal form")
     # (c) other readers
     # what a directive does itself: the search stops where markdown text re-enters the renderer
-    reach_rd = g.reachable([rd], stop=lambda f: f.name == "nested_render_text")
+    dir_entries = _directive_entries(corpus, rd)
+    for e, why in dir_entries[1:]:
+        rep.listed("C20.R3", f"{e.fq}|directive entry", e.site(), why)
+    reach_rd = g.reachable([e for e, _ in dir_entries], stop=lambda f: f.name == "nested_render_text")
     for fi, c, what in reads:
         if fi.fq == run.fq:
             continue
@@ -971,17 +1130,28 @@ def r4_shared_settings_real_documents(corpus: Corpus, rep: Report, tier: str):
         pst = cfg.stmt_of(pc)
         stores = [n for n in rr.local_nodes() if isinstance(n, ast.Assign) and any(unparse(t) == f"{dn}.settings" for t in n.targets)]
         created = _deref(darg, rr)
-        via_ctor = isinstance(created, ast.Call) and any(_is_outer_settings(a, rr) for a in list(created.args) + [kw.value for kw in created.keywords])
-        good = [s for s in stores if _is_outer_settings(s.value, rr)]
-        bad = [s for s in stores if not _is_outer_settings(s.value, rr)]
-        if bad:
-            rep.violation("C20.R4", k, rr.module.site(bad[0]), f"`{short(bad[0], 60)}`: the nested rST document does not carry the outer document's settings object, so raw_enabled/file_insertion_enabled of the build are not seen by rST directives inside eval-rst")
-        elif via_ctor or any(cfg.dominates(s, pst) for s in good):
-            rep.ok("C20.R4", k, rr.module.site(good[0] if good else created), "settings object shared before the nested parse")
+        via_ctor = isinstance(created, ast.Call) and any(_settings_kind(a, rr) == "outer" for a in list(created.args) + [kw.value for kw in created.keywords])
+        kinds = [(st_, _settings_kind(st_.value, rr)) for st_ in stores]
+        good = [st_ for st_, kd in kinds if kd == "outer"]
+        fresh = [st_ for st_, kd in kinds if kd == "fresh"]
+        unknown = [st_ for st_, kd in kinds if kd == "unknown"]
+        if fresh:
+            rep.violation("C20.R4", k, rr.module.site(fresh[0]), f"`{short(fresh[0], 60)}`: the nested rST document gets newly created default settings, so raw_enabled/file_insertion_enabled of the build are not seen by rST directives inside eval-rst")
+        elif unknown:
+            raise Unsupported(f"{rr.module.site(unknown[0])}: cannot tell where `{short(unknown[0].value, 50)}` comes from")
+        elif via_ctor or any(cfg.dominates(st_, pst) for st_ in good):
+            rep.ok("C20.R4", k, rr.module.site(good[0] if good else created), "settings object (or a copy of it) shared before the nested parse")
         elif good:
             rep.violation("C20.R4", k, rr.module.site(good[0]), "the settings are shared only after (or not on every path before) the nested rST parse has run")
         else:
-            rep.violation("C20.R4", k, rr.module.site(pc), f"the nested rST parser runs on `{dn}` with freshly created default settings (raw and file insertion enabled): `.. include::`, `.. raw:: :file:` and `.. csv-table:: :file:` inside eval-rst read files although file insertion is disabled")
+            # no store of a settings object: is the fresh settings object filled from the outer one, and how?
+            verdict = _fill_verdict(rr, dn, pst, cfg)
+            if verdict is None:
+                rep.violation("C20.R4", k, rr.module.site(pc), f"the nested rST parser runs on `{dn}` with freshly created default settings (raw and file insertion enabled): `.. include::`, `.. raw:: :file:` and `.. csv-table:: :file:` inside eval-rst read files although file insertion is disabled")
+            elif verdict[0] == "ok":
+                rep.ok("C20.R4", k, rr.module.site(verdict[2]), verdict[1])
+            else:
+                rep.violation("C20.R4", k, rr.module.site(verdict[2]), verdict[1])
     # MockRSTParser.parse hands the same document on
     sup = [c for c in _own_calls(mock_parse) if (dotted(c.func) or "").startswith("super().") and c.func.attr == "parse"]  # type: ignore[union-attr]
     k = f"{mock_parse.fq}|passes its document to the rST parser"
@@ -1059,6 +1229,82 @@ def _is_outer_settings(e: ast.expr | None, fi: FunctionInfo) -> bool:
     return e is not None and unparse(e) == "self.document.settings"
 
 
+FRESH_SETTINGS = ("make_document", "new_document", "get_default_settings", "get_default_values", "OptionParser", "Values")
+
+
+def _settings_kind(e: ast.expr | None, fi: FunctionInfo) -> str:
+    """'outer' (the outer document's settings object or a copy of it), 'fresh' (newly created defaults), 'unknown'."""
+    e = _deref(e, fi)
+    if e is None:
+        return "unknown"
+    if unparse(e) == "self.document.settings":
+        return "outer"
+    if isinstance(e, ast.Call):
+        d = dotted(e.func) or ""
+        last = d.rsplit(".", 1)[-1]
+        if last in ("copy", "deepcopy"):
+            src = e.args[0] if e.args else (e.func.value if isinstance(e.func, ast.Attribute) else None)
+            if src is not None and _is_outer_settings(src, fi):
+                return "outer"
+        if last in FRESH_SETTINGS:
+            return "fresh"
+    for n in ast.walk(e):
+        if isinstance(n, ast.Call) and (dotted(n.func) or "").rsplit(".", 1)[-1] in FRESH_SETTINGS:
+            return "fresh"
+    return "unknown"
+
+
+def _fill_verdict(fi: FunctionInfo, dn: str, pst, cfg):
+    """When the nested document keeps its own settings object: how is it filled from the outer settings
+    before the parse?  None = not at all; ('ok'|'bad', message, node)."""
+    target = f"{dn}.settings"
+    found = None
+    copied = {}
+    for n in fi.local_nodes():
+        if isinstance(n, ast.Assign) and len(n.targets) == 1 and isinstance(n.targets[0], ast.Attribute) and unparse(n.targets[0].value) == target:
+            sw = n.targets[0].attr
+            if sw in ("raw_enabled", "file_insertion_enabled") and cfg.dominates(n, pst):
+                r = _setting_root(n.value, sw, fi)
+                if r is not None and unparse(r) == "self.document":
+                    copied[sw] = n
+    if len(copied) == 2:
+        found = ("ok", "both switches are copied from the outer document's settings before the nested parse", copied["file_insertion_enabled"])
+    for c in _own_calls(fi):
+        st = cfg.stmt_of(c)
+        if not (cfg.dominates(st, pst) or any(cfg.dominates(a, pst) for a in _enclosing_loops(c))):
+            continue
+        text_args = [unparse(a) for a in c.args]
+        f = c.func
+        recv = unparse(f.value) if isinstance(f, ast.Attribute) else ""
+        touches = recv.startswith(target) or (dotted(f) == "setattr" and c.args and unparse(c.args[0]) == target)
+        if not touches:
+            continue
+        ctx = unparse(_outermost_stmt_in(fi, c))
+        from_outer = "self.document.settings" in ctx
+        if isinstance(f, ast.Attribute) and f.attr == "setdefault":
+            return ("bad", f"`{short(c, 60)}` only fills settings that `{dn}` lacks: raw_enabled and file_insertion_enabled have defaults (both on) in the fresh rST settings, so the build's values never arrive and file-reading directives inside eval-rst run although file insertion is disabled", c)
+        if from_outer and ((dotted(f) == "setattr") or (isinstance(f, ast.Attribute) and f.attr in ("update", "__setattr__", "_update_loose"))):
+            found = ("ok", f"every outer setting is copied over the fresh ones by `{short(c, 50)}` before the nested parse", c)
+        elif found is None:
+            raise Unsupported(f"{fi.module.site(c)}: `{short(c, 60)}` modifies {target} in a way the rule does not understand")
+    return found
+
+
+def _enclosing_loops(n: ast.AST):
+    for a in _ancestors_local(n):
+        if isinstance(a, (ast.For, ast.While)):
+            yield a
+
+
+def _outermost_stmt_in(fi: FunctionInfo, n: ast.AST) -> ast.AST:
+    cur = n
+    p = parent(cur)
+    while p is not None and p is not fi.node:
+        cur = p
+        p = parent(cur)
+    return cur
+
+
 def _renderer_params(fi: FunctionInfo) -> set[str]:
     out = set()
     a = fi.node.args
@@ -1084,7 +1330,77 @@ def _judge_doc_value(rep: Report, fi: FunctionInfo, st: ast.stmt, value: ast.exp
     raise Unsupported(f"{site}: `{short(st, 60)}` - cannot tell whether this is the renderer's document")
 
 
-RULES = [r1_filter_postdominates, r2_no_late_raw, r3_file_read_dominance, r4_shared_settings_real_documents]
+# ---------------------------------------------------------------------------
+# R5 the package only reads the two switches
+
+SWITCHES = ("raw_enabled", "file_insertion_enabled")
+
+
+def _falsy_const(e: ast.expr | None) -> bool:
+    return isinstance(e, ast.Constant) and e.value in (False, 0, None) and not isinstance(e.value, str)
+
+
+@rule("C20.R5")
+def r5_switches_are_read_only(corpus: Corpus, rep: Report, tier: str):
+    rep.rule("C20.R5", "the package never switches raw_enabled / file_insertion_enabled on: no attribute store, setattr, settings-override dict entry or keyword argument gives them a value other than False")
+    n_reads = 0
+    for m in corpus.modules.values():
+        for n in ast.walk(m.tree):
+            fi = None
+            where = m.name
+            site = m.site(n) if hasattr(n, "lineno") else m.rel
+            hits: list[tuple[str, ast.expr | None, str]] = []  # (switch, value, how)
+            if isinstance(n, (ast.Assign, ast.AugAssign, ast.AnnAssign)):
+                tgts = n.targets if isinstance(n, ast.Assign) else [n.target]
+                flat = []
+                for t in tgts:
+                    flat.extend(t.elts if isinstance(t, (ast.Tuple, ast.List)) else [t])
+                for t in flat:
+                    if isinstance(t, ast.Attribute) and t.attr in SWITCHES:
+                        single = isinstance(n, (ast.Assign, ast.AnnAssign)) and len(flat) == 1
+                        hits.append((t.attr, n.value if single else None, f"`{short(n, 70)}`"))
+                    elif isinstance(t, ast.Subscript) and isinstance(t.slice, ast.Constant) and t.slice.value in SWITCHES:
+                        hits.append((t.slice.value, n.value if isinstance(n, ast.Assign) and len(flat) == 1 else None, f"`{short(n, 70)}`"))
+            elif isinstance(n, ast.Call):
+                d = dotted(n.func) or ""
+                if d in ("setattr",) and len(n.args) == 3 and isinstance(n.args[1], ast.Constant) and n.args[1].value in SWITCHES:
+                    hits.append((n.args[1].value, n.args[2], f"`{short(n, 70)}`"))
+                elif isinstance(n.func, ast.Attribute) and n.func.attr in ("setdefault", "__setitem__", "set_defaults_from_dict") and n.args and isinstance(n.args[0], ast.Constant) and n.args[0].value in SWITCHES:
+                    hits.append((n.args[0].value, n.args[1] if len(n.args) > 1 else None, f"`{short(n, 70)}`"))
+                for kw in n.keywords:
+                    if kw.arg in SWITCHES:
+                        hits.append((kw.arg, kw.value, f"keyword argument in `{short(n, 60)}`"))
+            elif isinstance(n, ast.Dict):
+                for kk, vv in zip(n.keys, n.values):
+                    if isinstance(kk, ast.Constant) and kk.value in SWITCHES:
+                        hits.append((kk.value, vv, f"dict entry `{kk.value!r}: {short(vv, 30)}`"))
+            elif isinstance(n, ast.Attribute) and n.attr in SWITCHES and isinstance(n.ctx, ast.Load):
+                n_reads += 1
+                rep.ok("C20.R5", f"{_where(n, m)}|reads {n.attr}", site, "read-only use")
+            if isinstance(n, ast.Call) and dotted(n.func) == "getattr" and len(n.args) >= 2 and isinstance(n.args[1], ast.Constant) and n.args[1].value in SWITCHES:
+                n_reads += 1
+                rep.ok("C20.R5", f"{_where(n, m)}|reads {n.args[1].value}", site, "read-only use (getattr)")
+            for sw, val, how in hits:
+                k = f"{_where(n, m)}|sets {sw}|{short(val, 40) if val is not None else '?'}"
+                fn = enclosing_function(n)
+                if _falsy_const(val):
+                    rep.ok("C20.R5", k, site, f"{how} can only switch {sw} off")
+                elif val is not None and fn is not None and not fn.is_lambda and _setting_root(val, sw, fn) is not None:
+                    rep.ok("C20.R5", k, site, f"{how} copies the same switch from `{short(_setting_root(val, sw, fn), 40)}`.settings")
+                elif not (isinstance(val, ast.Constant) and val.value):
+                    raise Unsupported(f"{site}: {how}: cannot tell which value {sw} receives")
+                else:
+                    rep.violation("C20.R5", k, site, f"{how} gives the security switch {sw} a value of the package's choosing: a user who disabled it (docutils.conf, settings_overrides, command line) is overruled for whatever runs afterwards")
+    if n_reads < 2:
+        rep.error("C20.R5", f"expected the raw_enabled / file_insertion_enabled reads of the filter and the include mock, found {n_reads}")
+
+
+def _where(n: ast.AST, m) -> str:
+    f = enclosing_function(n)
+    return f.fq if f is not None else m.name
+
+
+RULES = [r1_filter_postdominates, r2_no_late_raw, r3_file_read_dominance, r4_shared_settings_real_documents, r5_switches_are_read_only]
 
 
 # ---------------------------------------------------------------------------
@@ -1119,6 +1435,9 @@ def mutants(corpus: Corpus):
         src3 = splice(dm.src, flt, "pass")
         src3 = splice(src3, render_st, fseg + f"\n{ind}" + seg)
         out.append(Mutant("c20-filter-before-render", "C20.R1", dm.rel, src3, expect="Parser.parse|raw filter after"))
+        # 3b. identity instead of truth test: raw_enabled = 0 slips through
+        if isinstance(flt.test, ast.UnaryOp) and isinstance(flt.test.op, ast.Not):
+            out.append(Mutant("c20-filter-identity-test", "C20.R1", dm.rel, splice(dm.src, flt.test, segment(dm.src, flt.test.operand) + " is False"), expect="raw filter|test"))
         # 4. extra condition
         out.append(Mutant("c20-filter-extra-condition", "C20.R1", dm.rel, splice(dm.src, flt.test, segment(dm.src, flt.test) + " and not config.gfm_only"), expect="raw filter|test"))
         loop = find_node(parse, lambda n: isinstance(n, ast.For) and "nodes.raw" in unparse(n.iter))
@@ -1143,6 +1462,45 @@ def mutants(corpus: Corpus):
         fin = find_stmt(parse, lambda s: isinstance(s, ast.Expr) and isinstance(s.value, ast.Call) and unparse(s.value.func) == "self.finish_parse")
         if fin is not None:
             out.append(Mutant("c20-raw-after-filter", "C20.R2", dm.rel, splice(dm.src, fin, f"document.append(nodes.raw('', '<!-- myst -->', format='html'))\n{ind}" + segment(dm.src, fin)), expect="after the filter", canary=True))
+    # revert of fd0f586: the Sphinx front end loses its raw filter
+    sm = corpus.mod("parsers.sphinx_")
+    sparse = sm.func("MystParser.parse")
+    sflt = find_node(sparse, lambda n: isinstance(n, ast.If) and _mentions_setting(n.test, "raw_enabled", sparse))
+    if sflt is not None:
+        out.append(Mutant("c20-sphinx-filter-reverted", "C20.R1", sm.rel, splice(sm.src, sflt, "pass"), expect="MystParser.parse|raw filter after", canary=True))
+        sloop = find_node(sparse, lambda n: isinstance(n, ast.For) and "nodes.raw" in unparse(n.iter))
+        if sloop is not None and sloop.body:
+            si = indent_of(sparse, sloop.body[0])
+            v = sloop.target.id
+            lazy_iter = unparse(sloop.iter.args[0]) if isinstance(sloop.iter, ast.Call) and dotted(sloop.iter.func) in ("list", "tuple") else unparse(sloop.iter).replace(".traverse(", ".findall(")
+            src = splice(sm.src, sloop.body[0], f"if {v}.get('format') == 'latex':\n{si}    {v}.parent.remove({v})\n{si}    continue\n{si}" + segment(sm.src, sloop.body[0]))
+            src = splice(src, sloop.iter, lazy_iter)
+            out.append(Mutant("c20-sphinx-filter-lazy-removal", "C20.R1", sm.rel, src, expect="lazy-iteration"))
+    else:
+        out.append(("c20-sphinx-filter-reverted", "no raw filter in MystParser.parse"))
+    if flt is not None:
+        dloop = find_node(parse, lambda n: isinstance(n, ast.For) and "nodes.raw" in unparse(n.iter))
+        drs = find_node(parse, lambda n: isinstance(n, ast.Expr) and isinstance(n.value, ast.Call) and unparse(n.value.func).endswith(".parent.replace"))
+        if dloop is not None and drs is not None:
+            v = dloop.target.id
+            src = splice(dm.src, drs, f"{v}.parent.remove({v})\n{indent_of(parse, drs)}document.append(warning)")
+            src = splice(src, dloop.iter, unparse(dloop.iter).replace(".traverse(", ".findall("))
+            out.append(Mutant("c20-filter-lazy-findall-with-removal", "C20.R1", dm.rel, src, expect="lazy-iteration"))
+        fin2 = find_stmt(parse, lambda s: isinstance(s, ast.Expr) and isinstance(s.value, ast.Call) and unparse(s.value.func) == "self.finish_parse")
+        if fin2 is not None:
+            i2 = indent_of(parse, fin2)
+            out.append(Mutant("c20-second-render-after-filter", "C20.R2", dm.rel, splice(dm.src, fin2, f"if config.html_meta:\n{i2}    parser.renderer.nested_render_text(str(config.html_meta), 0)\n{i2}" + segment(dm.src, fin2)), expect="Parser.parse"))
+    # R2: a raw subclass / alias built by a transform; an event handler building raw
+    cf0 = tr.func("CollectFootnotes.apply")
+    tcall0 = find_node(cf0, lambda n: isinstance(n, ast.Call) and unparse(n.func) == "nodes.transition")
+    if tcall0 is not None:
+        out.append(Mutant("c20-transform-builds-raw-subclass", "C20.R2", tr.rel, splice(tr.src, tcall0, "FootnoteRule('', '<hr>', format='html')") + "\n\nclass FootnoteRule(nodes.raw):\n    pass\n", expect="CollectFootnotes.apply"))
+        out.append(Mutant("c20-transform-builds-raw-alias", "C20.R2", tr.rel, splice(tr.src, tcall0, "_Raw('', '<hr>', format='html')") + "\n\n_Raw = nodes.raw\n", expect="CollectFootnotes.apply"))
+    mj = corpus.mod("sphinx_ext.mathjax")
+    om = mj.func("override_mathjax")
+    first_om = next((st for st in om.node.body if not (isinstance(st, ast.Expr) and isinstance(st.value, ast.Constant))), None)
+    if first_om is not None:
+        out.append(Mutant("c20-event-handler-builds-raw", "C20.R2", mj.rel, splice(mj.src, first_om, "app.myst_mathjax_banner = nodes.raw('', '<script></script>', format='html')\n" + indent_of(om, first_om) + segment(mj.src, first_om)), expect="override_mathjax"))
     # R2: a transform builds raw HTML
     cf = tr.func("CollectFootnotes.apply")
     tcall = find_node(cf, lambda n: isinstance(n, ast.Call) and unparse(n.func) == "nodes.transition")
@@ -1171,6 +1529,8 @@ def mutants(corpus: Corpus):
         if lv is not None:
             out.append(Mutant("c20-refusal-level-severe", "C20.R3", mk.rel, splice(mk.src, lv, "4"), expect="refusal"))
             out.append(Mutant("c20-refusal-level-info", "C20.R3", mk.rel, splice(mk.src, lv, "1"), expect="refusal"))
+        if isinstance(g.test, ast.UnaryOp) and isinstance(g.test.op, ast.Not):
+            out.append(Mutant("c20-insertion-guard-identity-test", "C20.R3", mk.rel, splice(mk.src, g.test, segment(mk.src, g.test.operand) + " is False"), expect="refusal"))
         # guard weakened: only refuses outside Sphinx
         out.append(Mutant("c20-insertion-guard-weakened", "C20.R3", mk.rel, splice(mk.src, g.test, segment(mk.src, g.test) + " and self.renderer.sphinx_env is None"), expect="read_text"))
     else:
@@ -1179,12 +1539,37 @@ def mutants(corpus: Corpus):
     fm = corpus.mod("sphinx_ext.directives").func("FigureMarkdown.run")
     first = fm.node.body[0] if not (isinstance(fm.node.body[0], ast.Expr) and isinstance(fm.node.body[0].value, ast.Constant)) else fm.node.body[1]
     out.append(Mutant("c20-directive-reads-file", "C20.R3", fm.module.rel, splice(fm.module.src, first, "caption_text = open(self.arguments[0] + '.caption').read() if self.options.get('caption-file') else None\n" + indent_of(fm, first) + segment(fm.module.src, first)), expect="FigureMarkdown.run"))
+    # R3: a second directive mock that reads a file without consulting the switch
+    rdv0 = base.func("DocutilsRenderer.run_directive")
+    inst_if = find_node(rdv0, lambda n: isinstance(n, ast.If) and any(isinstance(x, ast.Assign) and unparse(x.targets[0]) == "directive_instance" for x in n.body))
+    if inst_if is not None:
+        ii = indent_of(rdv0, inst_if)
+        bsrc = splice(base.src, inst_if, f"if name == 'table-file':\n{ii}    directive_instance = MockTableFile(self, parsed.arguments, parsed.options)\n{ii}el" + segment(base.src, inst_if))
+        bsrc = bsrc.replace("    MockIncludeDirective,\n", "    MockIncludeDirective,\n    MockTableFile,\n", 1) if "    MockIncludeDirective,\n" in bsrc else "from myst_parser.mocking import MockTableFile\n" + bsrc
+        msrc = mk.src + "\n\nclass MockTableFile:\n    def __init__(self, renderer, arguments, options):\n        self.renderer = renderer\n        self.document = renderer.document\n        self.arguments = arguments\n\n    def run(self):\n        rows = Path(self.arguments[0]).read_text().splitlines()\n        return [nodes.literal_block('\\n'.join(rows), '\\n'.join(rows))]\n"
+        out.append(Mutant("c20-second-directive-mock-reads-file", "C20.R3", mk.rel, msrc, expect="MockTableFile.run", more={base.rel: bsrc}))
+    else:
+        out.append(("c20-second-directive-mock-reads-file", "directive instantiation branch not found in run_directive"))
+    # R5: the package switches a security setting on
+    rs_f = base.func("DocutilsRenderer.render_s")
+    first_s = next((st for st in rs_f.node.body if not (isinstance(st, ast.Expr) and isinstance(st.value, ast.Constant))), None)
+    if first_s is not None:
+        out.append(Mutant("c20-raw-switched-on-for-own-nodes", "C20.R5", base.rel, splice(base.src, first_s, "self.document.settings.raw_enabled = True\n" + indent_of(rs_f, first_s) + segment(base.src, first_s)), expect="sets raw_enabled", canary=True))
+    dd = find_node(dm.func("to_html5_demo"), lambda n: isinstance(n, ast.Dict) and any(is_const(k, "output_encoding") for k in n.keys))
+    if dd is not None:
+        out.append(Mutant("c20-demo-overrides-file-insertion", "C20.R5", dm.rel, splice(dm.src, dd, segment(dm.src, dd).rstrip()[:-1] + '    "file_insertion_enabled": True,\n    }'), expect="sets file_insertion_enabled"))
+    inc_run = mk.func("MockIncludeDirective.run")
+    g5 = find_node(inc_run, lambda n: isinstance(n, ast.If) and _mentions_setting(n.test, "file_insertion_enabled", inc_run))
+    if g5 is not None:
+        out.append(Mutant("c20-include-mock-setattr-switch", "C20.R5", mk.rel, splice(mk.src, g5, 'setattr(self.document.settings, "file_insertion_enabled", True)\n' + indent_of(inc_run, g5) + segment(mk.src, g5)), expect="sets file_insertion_enabled"))
     # R4
     rr = base.func("DocutilsRenderer.render_restructuredtext")
     st = find_stmt(rr, lambda s: isinstance(s, ast.Assign) and unparse(s.targets[0]).endswith(".settings"))
     if st is not None:
         out.append(Mutant("c20-evalrst-settings-not-shared", "C20.R4", base.rel, splice(base.src, st, "pass"), expect="render_restructuredtext", canary=False))
         out.append(Mutant("c20-evalrst-settings-copied-defaults", "C20.R4", base.rel, splice(base.src, st.value, "make_document().settings"), expect="render_restructuredtext"))
+        doc_name = unparse(st.targets[0].value)
+        out.append(Mutant("c20-evalrst-settings-setdefault-merge", "C20.R4", base.rel, splice(base.src, st, f"for key, value in vars(self.document.settings).items():\n{indent_of(rr, st)}    {doc_name}.settings.setdefault(key, value)"), expect="render_restructuredtext"))
         pst = find_stmt(rr, lambda s: isinstance(s, ast.Expr) and isinstance(s.value, ast.Call) and unparse(s.value.func).endswith(".parse"))
         if pst is not None and pst.lineno > st.lineno:
             src = splice(base.src, pst, segment(base.src, pst) + "\n" + indent_of(rr, pst) + segment(base.src, st))
